@@ -18,7 +18,12 @@ QClauses(ev) ==
           <<"offsets", BagEq(ev.offsets, offs)>>,
           <<"zero_first", Len(ev.offsets) > 0 => ev.offsets[1] = <<0, 0>> >>,
           <<"extrema", ExtOK(SeqSet(offs), ev.extrema)>>,
-          <<"copy", BagEq(ev.copy_offsets, offs)>> >>
+          <<"copy", BagEq(ev.copy_offsets, offs)>>,
+          \* both queries APPEND to the caller's array (repetition.hpp): what was there stays, the same
+          \* answer follows it
+          <<"append_keeps_earlier_content", ev.append_keeps>>,
+          <<"appended_offsets", ev.appended_offsets = ev.offsets>>,
+          <<"appended_extrema", ev.appended_extrema = ev.extrema>> >>
 
 TClauses(ev) ==
     LET r == ev.g.r
